@@ -144,13 +144,13 @@ func runC02(c *fw.Ctx) {
 	depth, maxCore := 3, 120
 	if c.Thorough() {
 		depth, maxCore = 4, 400
-		for _, ld := range AllSmallLayouts() {
+		for _, ld := range ThoroughExtraLayouts() {
 			if len(ld.Archs) >= 2 {
 				layouts = append(layouts, ld)
 			}
 		}
 	}
-	c.R.Bounds["layouts"] = fmt.Sprintf("%d multi-level layouts (L4-L9; thorough: + all small multi-level lists)", len(layouts))
+	c.R.Bounds["layouts"] = fmt.Sprintf("%d multi-level layouts (L4-L9; thorough: + all two-level and every 12th three-level small list at depth 3)", len(layouts))
 	c.R.Bounds["methods_xff"] = "6 methods x xff {0, f32(1/3), 0.34, 0.5, 1}"
 	c.R.Bounds["history"] = fmt.Sprintf("generator depth %d (<=%d core states per config) + 1 operation of the full alphabet", depth, maxCore)
 	for li, ld := range layouts {
@@ -173,6 +173,9 @@ func runC02(c *fw.Ctx) {
 					}
 					cfg := ACfg{Tag: ld.Tag, Spec: ld.Spec, Archs: ld.Archs, Method: m, XFF: xff, Page: page}
 					e := &Explorer{C: c, Cfg: cfg, Now0: now, Depth: depth, Gen: c02Gen(cfg.Archs), Full: c02Full(cfg.Archs), MaxCore: maxCore}
+					if li >= 6 { // the thorough tier's additional layouts: quick settings
+						e.Depth, e.MaxCore = 3, 40
+					}
 					e.Judge = func(t *Trans) (string, string) {
 						for k, v := range t.Exp.Trace.Stats {
 							c.Count(k, v)
